@@ -33,20 +33,15 @@ static void vf_guar(void* p, void* o, void* n);
 #define VF_G(p, o, n) vf_guar((void*)(p), (void*)(o), (void*)(n))
 #include "vf.h"
 
-/* ---------------- protocol predicates (from the property statement) ---------------- */
-#define INACT ((void*)&Q.head_)
-/* producer steps */
-#define STEP_PUSH(o, n, it, itn)  ((n) == (void*)(it) && (itn) == ((o) == INACT ? (struct item*)NULL : (struct item*)(o)))
-#define STEP_MARK_ACTIVE(o, n)    ((o) == INACT && (n) == NULL)
-/* consumer-only steps */
-#define STEP_MARK_INACTIVE(o, n)  ((o) == NULL && (n) == INACT)
-#define STEP_TAKE_ALL(o, n)       ((o) != INACT && (o) != NULL && (n) == NULL)
-/* what the environment may do to head_ between two atomic accesses of ...
- * ... the consumer: producers push (never remove) and may mark an idle queue active; nobody else marks it
- *     inactive or takes the chain: active stays active, non-empty stays non-empty */
-#define RELY_CONSUMER(o, n) (((o) != INACT ==> (n) != INACT) && (((o) != INACT && (o) != NULL) ==> (n) != NULL))
-/* ... a producer: anything, except that its own unpublished item does not appear */
-#define RELY_PRODUCER(o, n) ((n) != (void*)&IT)
+/* ---------------- protocol predicates and contracts (from the property statement): aq_contract.h ---------------- */
+#include "aq_contract.h"
+#define INACT AQ_INACT(&Q)
+#define STEP_PUSH(o, n, it, itn)  AQ_STEP_PUSH(&Q, o, n, it, itn)
+#define STEP_MARK_ACTIVE(o, n)    AQ_STEP_MARK_ACTIVE(&Q, o, n)
+#define STEP_MARK_INACTIVE(o, n)  AQ_STEP_MARK_INACTIVE(&Q, o, n)
+#define STEP_TAKE_ALL(o, n)       AQ_STEP_TAKE_ALL(&Q, o, n)
+#define RELY_CONSUMER(o, n)       AQ_RELY_CONSUMER(&Q, o, n)
+#define RELY_PRODUCER(o, n)       AQ_RELY_PRODUCER(&Q, o, n, &IT)
 
 static void vf_guar(void* p, void* o, void* n) {
   VF_P(p == (void*)&Q.head_, "atomic write to an unexpected location");
@@ -100,61 +95,54 @@ static struct iqueue IQ_make_reversed(struct item* list) {
 
 /* producers (any thread) */
 _Bool AQ_try_mark_active(struct aq* self)
-__CPROVER_requires(self == &Q && G.lin_count == 0)
-__CPROVER_assigns(Q.head_, G.lin_old, G.lin_new, G.lin_count, G.it_next_at_lin)
-__CPROVER_ensures(__CPROVER_return_value == (G.lin_count == 1)) /* true <=> this call performed the transition */
-__CPROVER_ensures(G.lin_count == 1 ==> (G.lin_old == INACT && G.lin_new == NULL)) /* the only transition: sentinel -> active-empty */
-__CPROVER_ensures(!__CPROVER_return_value ==> Q.head_ != INACT) /* false only if the queue was observed active (strong CAS: no spurious failure) */
+__CPROVER_requires(self == &Q && AQ_REQ_ANY(&Q))
+__CPROVER_assigns(AQ_ASSIGNS_ANY(&Q))
+__CPROVER_ensures(AQ_ENS_TRY_MARK_ACTIVE(&Q, __CPROVER_return_value)) /* true <=> this call made the transition sentinel -> active-empty; false only if observed active */
 /*@BODY try_mark_active*/
 
 _Bool AQ_enqueue_or_mark_active(struct aq* self, struct item* item)
-__CPROVER_requires(self == &Q && item == &IT && G.lin_count == 0 && Q.head_ != (void*)&IT)
-__CPROVER_assigns(Q.head_, IT.next_, G.lin_old, G.lin_new, G.lin_count, G.it_next_at_lin)
-__CPROVER_ensures(G.lin_count == 1) /* exactly one successful write */
-__CPROVER_ensures(G.lin_old == INACT ==> (G.lin_new == NULL && !__CPROVER_return_value)) /* was inactive: marked active, item NOT enqueued, returns false */
-__CPROVER_ensures(G.lin_old != INACT ==> (G.lin_new == (void*)&IT && G.it_next_at_lin == (struct item*)G.lin_old && __CPROVER_return_value)) /* was active: pushed in front of the previous head, returns true */
+__CPROVER_requires(self == &Q && item == &IT && AQ_REQ_PRODUCER(&Q, &IT))
+__CPROVER_assigns(AQ_ASSIGNS_PRODUCER(&Q, &IT))
+__CPROVER_ensures(AQ_ENS_EOMA_ONCE(&Q, &IT, __CPROVER_return_value)) /* exactly one successful write */
+__CPROVER_ensures(AQ_ENS_EOMA_INACTIVE(&Q, &IT, __CPROVER_return_value)) /* was inactive: marked active, item NOT enqueued, returns false */
+__CPROVER_ensures(AQ_ENS_EOMA_ACTIVE(&Q, &IT, __CPROVER_return_value)) /* was active: pushed in front of the previous head, returns true */
 /*@BODY enqueue_or_mark_active*/
 
 _Bool AQ_enqueue(struct aq* self, struct item* item)
-__CPROVER_requires(self == &Q && item == &IT && G.lin_count == 0 && Q.head_ != (void*)&IT)
-__CPROVER_assigns(Q.head_, IT.next_, G.lin_old, G.lin_new, G.lin_count, G.it_next_at_lin)
-__CPROVER_ensures(G.lin_count == 1 && G.lin_new == (void*)&IT) /* the item is in the list in both cases */
-__CPROVER_ensures(G.it_next_at_lin == (G.lin_old == INACT ? (struct item*)NULL : (struct item*)G.lin_old)) /* behind it: the previous head, or nothing over the sentinel */
-__CPROVER_ensures(__CPROVER_return_value == (G.lin_old == INACT)) /* true for exactly the call whose CAS replaced the inactive sentinel */
+__CPROVER_requires(self == &Q && item == &IT && AQ_REQ_PRODUCER(&Q, &IT))
+__CPROVER_assigns(AQ_ASSIGNS_PRODUCER(&Q, &IT))
+__CPROVER_ensures(AQ_ENS_ENQUEUE_PUSHED(&Q, &IT, __CPROVER_return_value)) /* the item is in the list in both cases */
+__CPROVER_ensures(AQ_ENS_ENQUEUE_NEXT(&Q, &IT, __CPROVER_return_value)) /* behind it: the previous head, or nothing over the sentinel */
+__CPROVER_ensures(AQ_ENS_ENQUEUE_WAKE(&Q, &IT, __CPROVER_return_value)) /* true for exactly the call whose CAS replaced the inactive sentinel */
 /*@BODY enqueue*/
 
 /* consumer only, queue active */
-#define CONSUMER_REQ(self) ((self) == &Q && G.i_am_consumer && Q.head_ != INACT && G.lin_count == 0 && G.mr_calls == 0)
-
 struct iqueue AQ_dequeue_all(struct aq* self)
-__CPROVER_requires(CONSUMER_REQ(self))
-__CPROVER_assigns(Q.head_, G.lin_old, G.lin_new, G.lin_count, G.it_next_at_lin, G.mr_calls, G.mr_arg)
-__CPROVER_ensures(G.lin_count == 0 ==> (Q.head_ == NULL && G.mr_calls == 0 && __CPROVER_return_value.head_ == NULL && __CPROVER_return_value.tail_ == NULL)) /* nothing taken only if the inbox was observed empty */
-__CPROVER_ensures(G.lin_count != 0 ==> (G.lin_count == 1 && G.lin_new == NULL && G.lin_old != NULL && G.lin_old != INACT)) /* one atomic step empties the inbox */
-__CPROVER_ensures(G.lin_count != 0 ==> (G.mr_calls == 1 && (void*)G.mr_arg == G.lin_old && (void*)__CPROVER_return_value.tail_ == G.lin_old && __CPROVER_return_value.head_ != NULL)) /* and the WHOLE old chain (from its head) is what the caller receives */
+__CPROVER_requires(self == &Q && AQ_REQ_CONSUMER(&Q))
+__CPROVER_assigns(AQ_ASSIGNS_CONSUMER(&Q))
+__CPROVER_ensures(AQ_ENS_DEQUEUE_ALL_NONE(&Q, __CPROVER_return_value)) /* nothing taken only if the inbox was observed empty */
+__CPROVER_ensures(AQ_ENS_DEQUEUE_ALL_STEP(&Q, __CPROVER_return_value)) /* one atomic step empties the inbox */
+__CPROVER_ensures(AQ_ENS_DEQUEUE_ALL_WHOLE(&Q, __CPROVER_return_value)) /* and the WHOLE old chain (from its head) is what the caller receives */
 /*@BODY dequeue_all*/
 
 struct istack AQ_dequeue_all_reversed(struct aq* self)
-__CPROVER_requires(CONSUMER_REQ(self))
-__CPROVER_assigns(Q.head_, G.lin_old, G.lin_new, G.lin_count, G.it_next_at_lin)
-__CPROVER_ensures(G.lin_count == 0 ==> (Q.head_ == NULL && __CPROVER_return_value.head_ == NULL))
-__CPROVER_ensures(G.lin_count != 0 ==> (G.lin_count == 1 && G.lin_new == NULL && G.lin_old != NULL && G.lin_old != INACT && (void*)__CPROVER_return_value.head_ == G.lin_old)) /* takes the whole chain atomically, newest first */
+__CPROVER_requires(self == &Q && AQ_REQ_CONSUMER(&Q))
+__CPROVER_assigns(AQ_ASSIGNS_ANY(&Q))
+__CPROVER_ensures(AQ_ENS_DEQUEUE_ALL_REVERSED(&Q, __CPROVER_return_value)) /* takes the whole chain atomically, newest first; nothing only if observed empty */
 /*@BODY dequeue_all_reversed*/
 
 _Bool AQ_try_mark_inactive(struct aq* self)
-__CPROVER_requires(CONSUMER_REQ(self))
-__CPROVER_assigns(Q.head_, G.lin_old, G.lin_new, G.lin_count, G.it_next_at_lin)
-__CPROVER_ensures(__CPROVER_return_value == (G.lin_count == 1))
-__CPROVER_ensures(G.lin_count == 1 ==> (G.lin_old == NULL && G.lin_new == INACT && Q.head_ == INACT)) /* succeeds only on an empty active queue */
-__CPROVER_ensures(!__CPROVER_return_value ==> (G.lin_count == 0 && Q.head_ != NULL && Q.head_ != INACT)) /* fails only because items were observed; nothing written */
+__CPROVER_requires(self == &Q && AQ_REQ_CONSUMER(&Q))
+__CPROVER_assigns(AQ_ASSIGNS_ANY(&Q))
+__CPROVER_ensures(AQ_ENS_TRY_MARK_INACTIVE(&Q, __CPROVER_return_value)) /* succeeds only on an empty active queue; fails only because items were observed, nothing written */
 /*@BODY try_mark_inactive*/
 
 struct iqueue AQ_try_mark_inactive_or_dequeue_all(struct aq* self)
-__CPROVER_requires(CONSUMER_REQ(self))
-__CPROVER_assigns(Q.head_, G.lin_old, G.lin_new, G.lin_count, G.it_next_at_lin, G.mr_calls, G.mr_arg)
-__CPROVER_ensures(G.lin_count == 1) /* exactly one of the two transitions */
-__CPROVER_ensures(G.lin_new == INACT ==> (G.lin_old == NULL && G.mr_calls == 0 && __CPROVER_return_value.head_ == NULL && __CPROVER_return_value.tail_ == NULL)) /* installs the sentinel only over an empty inbox and returns nothing */
-__CPROVER_ensures(G.lin_new != INACT ==> (G.lin_new == NULL && G.lin_old != NULL && G.lin_old != INACT && G.mr_calls == 1 && (void*)G.mr_arg == G.lin_old && (void*)__CPROVER_return_value.tail_ == G.lin_old && __CPROVER_return_value.head_ != NULL)) /* or takes EVERYTHING: head becomes NULL, returned list = old head chain */
+__CPROVER_requires(self == &Q && AQ_REQ_CONSUMER(&Q))
+__CPROVER_assigns(AQ_ASSIGNS_CONSUMER(&Q))
+__CPROVER_ensures(AQ_ENS_TMIODA_ONCE(&Q, __CPROVER_return_value)) /* exactly one of the two transitions */
+__CPROVER_ensures(AQ_ENS_TMIODA_INACTIVE(&Q, __CPROVER_return_value)) /* installs the sentinel only over an empty inbox and returns nothing */
+__CPROVER_ensures(AQ_ENS_TMIODA_TAKE(&Q, __CPROVER_return_value)) /* or takes EVERYTHING: head becomes NULL, returned list = old head chain */
 /*@BODY try_mark_inactive_or_dequeue_all*/
 
 /* ---------------- harnesses ---------------- */
